@@ -1076,7 +1076,7 @@ func (s *orcSession) outstanding() int {
 
 func dumpOracle(st badger.VerifOracleState, keyName func(uint64) string) string {
 	var b strings.Builder
-	fmt.Fprintf(&b, "next=%d lc=%d dt=%d rd=%d td=%d ct=", st.NextTxnTs, st.LastCleanupTs, st.DiscardTs, st.ReadDoneUntil, st.TxnDoneUntil)
+	fmt.Fprintf(&b, "next=%d lc=%d dt=%d rd=%d td=%d da=%d ct=", st.NextTxnTs, st.LastCleanupTs, st.DiscardTs, st.ReadDoneUntil, st.TxnDoneUntil, st.DiscardAtOrBelow)
 	if len(st.Committed) == 0 {
 		b.WriteString("-")
 	}
@@ -1433,6 +1433,9 @@ func execOracle(ops []string, st *Stats) (outs []string, oracle []string) {
 			for tid, t := range s.txns {
 				if (t.state == rtActive || t.state == rtClosing) && t.readTs < fin.ReadDoneUntil {
 					fail(i, fmt.Sprintf("[readmark-ahead-of-open-txn] readMark.DoneUntil=%d although transaction %d with readTs %d is open", fin.ReadDoneUntil, tid, t.readTs))
+				}
+				if (t.state == rtActive || t.state == rtClosing) && t.readTs < fin.DiscardAtOrBelow {
+					fail(i, fmt.Sprintf("[C34-discard-above-open-reader] discardAtOrBelow()=%d exceeds the read timestamp %d of transaction %d, which has not finished: a compaction may drop versions it still reads", fin.DiscardAtOrBelow, t.readTs, tid))
 				}
 			}
 			for _, c := range s.ref.commits {
@@ -2046,6 +2049,9 @@ func execTxn(ops []string, st *Stats) (outs []string, oracle []string) {
 			for tid2, t2 := range s.txns {
 				if !t2.closed && !t2.blocked && t2.readTs < fin.ReadDoneUntil {
 					fail(i, fmt.Sprintf("[readmark-ahead-of-open-txn] readMark.DoneUntil=%d although transaction %d with readTs %d is open", fin.ReadDoneUntil, tid2, t2.readTs))
+				}
+				if !t2.closed && !t2.blocked && t2.readTs < fin.DiscardAtOrBelow {
+					fail(i, fmt.Sprintf("[C34-discard-above-open-reader] discardAtOrBelow()=%d exceeds the read timestamp %d of transaction %d, which has not finished: a compaction may drop versions it still reads", fin.DiscardAtOrBelow, t2.readTs, tid2))
 				}
 			}
 			if fin.LastCleanupTs > fin.ReadDoneUntil {
